@@ -3,7 +3,7 @@
 From Coq Require Import List NArith ZArith Bool.
 From Coq Require Import Strings.Byte.
 From UF Require Import Base.Lit Base.Bytes Model.Options Model.Netip Model.NetRule Model.Rule Model.Request Model.Match
-  Model.Result Model.Storage Model.Engines Proofs.C02Proofs Proofs.EndToEnd.
+  Model.Result Model.Storage Model.Engines Proofs.C06Proofs Proofs.C02Proofs Proofs.EndToEnd.
 Import ListNotations.
 
 (* "DNS-applicable": the host-level test of the code is exactly "no $domain, not both content-type lists,
@@ -59,3 +59,14 @@ Theorem C02_storage_intact : forall s scanned, storage_ok s -> storage_scan s = 
   storage_intact (retr_net_of s) (retr_host_of s) scanned.
 Proof. exact dns_storage_intact. Qed.
 Print Assumptions C02_storage_intact.
+
+(* end to end: the class of the DNS basic rule is the order-free DNS verdict over the DNS-applicable rules of the
+   lists that match — storage, engine construction for every hash function, lookup, GetDNSBasicRule — assuming only
+   the domain of the storage index and that no host-level rule text occurs twice *)
+Theorem C02_verdict_end_to_end : forall hash psl s scanned hostname q,
+  storage_ok s -> storage_scan s = Ok scanned -> hostname <> [] ->
+  NoDup (map (fun ri => nr_text (fst ri)) (hl_of scanned)) ->
+  verdict_of (dr_network_rule (fst (dns_match hash psl (retr_net_of s) (retr_host_of s) (build_dns hash scanned) hostname q))) =
+  spec_dns_verdict (filter (fun f => rmatch psl f q) (map fst (hl_of scanned))).
+Proof. exact dns_verdict_end_to_end. Qed.
+Print Assumptions C02_verdict_end_to_end.
